@@ -124,9 +124,14 @@ func checkCmd(args []string) int {
 		return 0
 	}
 	spec := loadSpecs(w, filepath.Join(root, "trusted"))
-	opt := solveOpts{quickMs: 4000, retryMs: 8000, portfolio: true}
+	opt := solveOpts{quickMs: 6000, retryMs: 10000, portfolio: true}
 	if *tier == "thorough" {
 		opt = solveOpts{quickMs: 20000, retryMs: 60000, portfolio: true}
+	}
+	if *writeBase {
+		// the claimed set is recorded under a fifth of the quick time limits: only obligations that discharge
+		// with that much margin are claimed, so that a loaded machine does not turn a proof into an alarm
+		opt = solveOpts{quickMs: 1200, retryMs: 2000, portfolio: true}
 	}
 	res := verifyAll(w, spec, w.funcs, opt, 16, nil)
 	extra := extraObligations(w, spec, *prop, opt)
